@@ -10,6 +10,7 @@ UNITS = {
     'LINK': dict(template='link.rs', rlimit=30),
     'REASM': dict(template='reasm.rs', rlimit=30),
     'TXN': dict(template='txn.rs', rlimit=30),
+    'SERHDR': dict(template='serhdr.rs', rlimit=30),
 }
 
 COMMON_TRUSTED = [
@@ -45,6 +46,31 @@ PROPS = {
             'in unit SESSION a link is a ghost call log whose echo answer is the contract of LinkRelay::on_incoming_disposition (sender && !settled && rcv-settle-mode second)',
             'DeliveryFut::poll (Pin/poll) and interleaving of dispositions with further sends are not decided',
             'that UnsettledMessage::settle_with_state is actually invoked on the entry removed by LinkRelay::on_incoming_disposition is visible in the extracted text but is not an obligation: a by-value call leaves no ghost trace; what IS proved: the entry removed is the one under the disposition\'s tag, and settle_with_state resolves its own channel with exactly the state given']),
+    'C03': dict(
+        units=['SERHDR'], kani=K_RT, level='proof', title='Codec round trip (primitives + compound headers)',
+        assumptions=[
+            'PROVED for every value: the fixed-width primitives listed in the obligations (Kani harnesses, loop-free / fully unwound over the full domain) and the compound header writers (Verus)',
+            'BOUNDED ONLY (listed under bounded_obligations, never counted as proved): decoders on short byte strings, compound headers with hostile size/count bytes',
+            'NOT DECIDED: strings/symbols/binaries of arbitrary length and Unicode content, arbitrary nesting of lists/maps/arrays/described values, the derive-macro output for the typed protocol items (performatives, SASL bodies, delivery states, messages) -- serde visitor code is outside the Verus subset and too large for CBMC beyond small bounds',
+            'compound header writers: the call-site fact count <= byte length (every element occupies at least one byte in this implementation) is assumed; the serde SerializeSeq/Map impls that call them are not under contract']),
+    'C05': dict(
+        units=['SERHDR'], kani=K_RT + K_DEC, level='proof', title='Valid encodings / every variant accepted (primitives + compound headers)',
+        assumptions=[
+            'PROVED for every value: the fixed-width primitives listed in the obligations (Kani harnesses, loop-free / fully unwound over the full domain) and the compound header writers (Verus)',
+            'BOUNDED ONLY (listed under bounded_obligations, never counted as proved): decoders on short byte strings, compound headers with hostile size/count bytes',
+            'NOT DECIDED: strings/symbols/binaries of arbitrary length and Unicode content, arbitrary nesting of lists/maps/arrays/described values, the derive-macro output for the typed protocol items (performatives, SASL bodies, delivery states, messages) -- serde visitor code is outside the Verus subset and too large for CBMC beyond small bounds',
+            'compound header writers: the call-site fact count <= byte length (every element occupies at least one byte in this implementation) is assumed; the serde SerializeSeq/Map impls that call them are not under contract']),
+    'C20': dict(
+        units=['FRAMEDEC'], kani=K_RT, level='proof', title='Codec entry points agree (primitives; frame payload)',
+        assumptions=[
+            'PROVED for every value: the fixed-width primitives listed in the obligations (Kani harnesses, loop-free / fully unwound over the full domain) and the compound header writers (Verus)',
+            'BOUNDED ONLY (listed under bounded_obligations, never counted as proved): decoders on short byte strings, compound headers with hostile size/count bytes',
+            'NOT DECIDED: strings/symbols/binaries of arbitrary length and Unicode content, arbitrary nesting of lists/maps/arrays/described values, the derive-macro output for the typed protocol items (performatives, SASL bodies, delivery states, messages) -- serde visitor code is outside the Verus subset and too large for CBMC beyond small bounds',
+            'compound header writers: the call-site fact count <= byte length (every element occupies at least one byte in this implementation) is assumed; the serde SerializeSeq/Map impls that call them are not under contract'] + ['to_value/from_value vs bytes is not covered yet']),
+    'C04': dict(
+        units=[], kani=K_TOTAL3, level='model_checking', manifest_level='model_checking', title='Decoding untrusted bytes (bounded only)',
+        level_text='BOUNDED stand-in only: Kani/CBMC explores every byte string up to the stated length for each listed type on the real serde_amqp crate with overflow checks and unwinding assertions on. Nothing here is counted as proved; recursion depth, allocation size and progress are not decided.',
+        assumptions=['bounded: input length <= 3 bytes per harness (all strings)', 'stack depth, allocation proportional to input, no-loop-without-consuming are NOT decided (a CBMC run cannot bound the real process)', 'structure-aware corruptions of longer encodings are covered only by the thorough-tier compound-header harnesses']),
     'C06': dict(
         units=['FRAMEENC', 'FRAMEDEC'], kani=[], level='proof', title='Frames on the wire',
         lemmas={'FRAMEENC': ['lemma_expected_properties', 'lemma_cut_points', 'lemma_mids_payload', 'lemma_mids_sizes', 'lemma_flatten_append', 'lemma_payloads_append']},
